@@ -245,13 +245,13 @@ ODL_UNITS = ["m", "KM", "m/s", "km**2", "m*s**-1", "deg", "pixel", "m/s/s",
              "kg*m**2", "DEGREES", "W/(m**2)", "km\t/ s", "m /\ts", "m / s"]
 PVL_UNITS = ODL_UNITS + ["m s", "km per s", "%", "a.b", "deg C", "1/s", "µm",
                          "m^2", "'", "it's", "a=b", "(", "#", "m\n/s", "", "m>", "<m",
-                         "a -\n b", "/* c */", "x # y"]
+                         "a -\n b", "/* c */", "x # y", " m ", "m ", "\tm", "m\n", "\xa0m"]
 
 
 @functools.lru_cache(maxsize=None)
 def units(dialect):
     if dialect in ODL_FAMILY:
-        return st.sampled_from(ODL_UNITS + ["m s", "bad unit!", "3m", "m**x", "m\n/s",
+        return st.sampled_from(ODL_UNITS + [" m ", "m ", "\tm", "m s", "bad unit!", "3m", "m**x", "m\n/s",
                                             "m\r\n/s", "km /\x0cs", "", " ", "m>", "<m"])
     return st.sampled_from(PVL_UNITS)
 
